@@ -2,6 +2,7 @@
 #![allow(dead_code)]
 mod common;
 mod gen {
+    pub mod cond;
     pub mod labels;
     pub mod voice;
 }
